@@ -1344,6 +1344,16 @@ def call_model(M,st,fr,callee,args):
     if re.match(r'^<Zip<.*> as IntoIterator>::into_iter$',c) or re.match(r'^<std::array::IntoIter<.*> as IntoIterator>::into_iter$',c): return args[0]
     m=re.match(r'^<\[(.*); (\d+)\] as IntoIterator>::into_iter$',c)
     if m: return PyObj('iter',src='list',items=list(args[0].items),pos=0)
+    m=re.match(r'^<&?(f32|[iu](?:8|16|32|64|size)) as (Add|Sub|Mul|Div|Rem)(?:<&?\1>)?>::(add|sub|mul|div|rem)$',c)
+    if m:
+        a_,b_=deref(args[0]),deref(args[1]); op=m.group(2)
+        if isinstance(a_,Int) and M.profile!='release' and op in('Add','Sub','Mul'):
+            r_=binop(op+'WithOverflow',a_,b_); ov=r_.f[1]
+            if ov.conc():
+                if ov.v: raise Panic('attempt to '+m.group(3)+' with overflow')
+                return r_.f[0]
+            return Forks([(z3.Not(ov.z()),r_.f[0]),(ov.z(),Panic('attempt to '+m.group(3)+' with overflow'))])
+        return binop(op,a_,b_)
     if c in('<&f32 as PartialEq>::eq','<&f32 as PartialEq>::ne','<f32 as PartialEq>::eq'):
         a,b=deref(args[0]),deref(args[1]); r=z3.fpEQ(a.v,b.v); return mkbool(r if c.endswith('eq') else z3.Not(r))
     if re.match(r'^<Vec<.*> as (Deref|DerefMut)>::(deref|deref_mut)$',c): return args[0]
@@ -1544,29 +1554,25 @@ def call_model(M,st,fr,callee,args):
     # ---- regex (DFA from literal)
     if c=='regex::Regex::new':
         pat=bytes(x.v for x in deref(args[0]).b).decode()
-        import redfa; t,a=redfa.dfa(pat); return ok(PyObj('regex',pat=pat,t=t,a=a))
+        import redfa; t,a=redfa.dfa(pat); a0,a1=redfa.anchors(pat)
+        # which DFA states tolerate a byte >= 128: those inside an unanchored prefix (state 0's self loop) or an unanchored suffix (accepting, absorbing)
+        return ok(PyObj('regex',pat=pat,t=t,a=a,any_prefix=not a0,any_suffix=not a1))
     if c=='regex::Regex::is_match':
-        rx=deref(args[0]); sv=deref(args[1]); 
-        # run DFA symbolically: state as z3 int via ite over table rows
-        nst=len(rx.t); q=z3.BitVecVal(0,8); dead=z3.BoolVal(False)
+        rx=deref(args[0]); sv=deref(args[1])
+        # run the DFA symbolically: the state is a z3 term (ite over table rows); column 128 of the table = any byte >= 0x80
+        nst=len(rx.t); q=z3.BitVecVal(0,8)
         for by in sv.b:
             if is_num(by):
-                # text class '0' '.' [0-9]+ : compute per-state image; must be deterministic
+                # NUM(w) is the text class '0' '.' digit+ : per-state image, must be deterministic up to equivalence
                 img={}
                 for s0 in range(nst):
                     cur={rx.t[rx.t[s0][ord('0')]][ord('.')]}
-                    nxt=set(rx.t[q0][d] for q0 in cur for d in range(48,58)); seen=set()
-                    # digit+ : closure
+                    nxt=set(rx.t[q0][d] for q0 in cur for d in range(48,58))
                     reach=set(nxt); frontier=set(nxt)
                     while frontier:
                         f2=set(rx.t[q0][d] for q0 in frontier for d in range(48,58))-reach
                         reach|=f2; frontier=f2
-                    accs={rx.a[q0] for q0 in reach}
-                    if len(accs)!=1 and len(reach)>1:
-                        # states differ in acceptance: only ok if all non-dead reach states agree when followed by nothing/more
-                        pass
                     img[s0]=reach
-                # choose representative if all members are equivalent for our purposes (same row & acceptance)
                 def rep(S):
                     S=sorted(S); r0=S[0]
                     for q0 in S[1:]:
@@ -1575,26 +1581,24 @@ def call_model(M,st,fr,callee,args):
                 nq=z3.BitVecVal(rep(img[nst-1]),8)
                 for s0 in range(nst-2,-1,-1): nq=z3.If(q==s0,z3.BitVecVal(rep(img[s0]),8),nq)
                 q=z3.simplify(nq); continue
-            x=by.z()
             if by.conc():
-                if by.v>=128: dead=z3.BoolVal(True); continue
-                row=[rx.t[s][by.v] for s in range(nst)]
+                col_=min(by.v,128)
+                row=[rx.t[s][col_] for s in range(nst)]
                 nq=z3.BitVecVal(row[-1],8)
                 for s in range(nst-2,-1,-1): nq=z3.If(q==s,z3.BitVecVal(row[s],8),nq)
                 q=z3.simplify(nq); continue
-            # symbolic byte: group bytes by transition column
+            x=by.z()
             cols={}
-            for bv in range(128): cols.setdefault(tuple(rx.t[s][bv] for s in range(nst)),[]).append(bv)
-            deadcol=tuple([None])
+            for bv in range(129): cols.setdefault(tuple(rx.t[s][bv] for s in range(nst)),[]).append(bv)
             nq=None
             for col,bvs in cols.items():
-                inset=z3.Or(*[x==bv for bv in bvs])
+                inset=z3.Or(*[(x==bv) if bv<128 else z3.UGE(x,128) for bv in bvs])
                 tq=z3.BitVecVal(col[-1],8)
                 for s in range(nst-2,-1,-1): tq=z3.If(q==s,z3.BitVecVal(col[s],8),tq)
                 nq=tq if nq is None else z3.If(inset,tq,nq)
-            dead=z3.Or(dead,z3.UGE(x,128)); q=z3.simplify(nq)
+            q=z3.simplify(nq)
         acc=z3.Or(*[q==s for s in range(nst) if rx.a[s]]) if any(rx.a) else z3.BoolVal(False)
-        return mkbool(z3.And(z3.Not(dead),acc))
+        return mkbool(acc)
     # ---- f32 text (S3)
     if c=='<f32 as FromStr>::from_str':
         b=deref(args[0]).b; n=len(b)
@@ -1634,6 +1638,7 @@ Machine.call_model=call_model
 Machine.overrides={}
 Machine.fmt_hooks={}
 Machine.cut=None
+Machine.profile='dev'
 _fresh=[0]
 def _f(s): _fresh[0]+=1; return _fresh[0]
 Machine.fresh=_f
